@@ -368,7 +368,29 @@ fn c18_conc(case: &Case) {
     for h in hs {
         h.join().ok();
     }
-    let hist = std::mem::take(&mut *results.lock().unwrap());
+    let mut hist = std::mem::take(&mut *results.lock().unwrap());
+    // Observation phase: after all threads joined, read every key, every alias list and the
+    // size sequentially; these reads close the history so that a state no sequential order
+    // can produce (a dangling alias, say) is visible even if no concurrent op looked at it.
+    if hist.len() <= 8 {
+        let mut ids: Vec<u64> = in_play.clone();
+        for c in &hist {
+            if let Op::Insert(id) = &c.op {
+                ids.push(*id);
+            }
+        }
+        let mut obs: Vec<Op> = KEYS.iter().map(|k| Op::GetBy(k.to_string())).collect();
+        obs.push(Op::Len);
+        for id in ids.iter().take(4) {
+            obs.push(Op::AliasesFor(*id));
+        }
+        for op in obs {
+            let invoke = stamps.next();
+            let ret = exec(&reg, &log, &op);
+            let ret_at = stamps.next();
+            hist.push(Completed { thread: 99, op, ret, invoke, ret_at });
+        }
+    }
     let witness = linearize(&model, &hist);
     let overlapping = hist
         .iter()
